@@ -123,3 +123,19 @@ def total_from_rows(rows):
 def isqrt_exact(n):
     r = math.isqrt(n)
     return r if r * r == n else None
+
+
+def tiled(arr, total=70001):
+    """A large array made of whole copies of `arr` plus a head remainder (length `total`, deliberately not a power of two nor a
+    multiple of common chunk sizes) and the source position of each of its elements: results of element-wise operations on it must be
+    the tiled results of the small array (kernels may switch to chunked / parallel builds above a size threshold)."""
+    n = len(arr)
+    k, r = divmod(total, n)
+    big = type(arr)._concat_same_type([arr] * k + ([arr[:r]] if r else []))
+    pos = np.concatenate([np.tile(np.arange(n), k), np.arange(r)])
+    return big, pos
+
+
+def same_array(a, b):
+    a, b = np.asarray(a), np.asarray(b)
+    return a.shape == b.shape and (np.array_equal(a, b, equal_nan=True) if a.dtype.kind == "f" else np.array_equal(a, b))
